@@ -7,12 +7,12 @@ CONSTANTS Comp = "multi"
   Hosts <- H3
   InitAt <- At1_3
   MovePorts <- Mv_none
-  Dsts <- D_All3
+  Dsts <- D_H3UB
   Shapes <- Sh_abl
   NBuf = 0
-  Gaps <- G_6_31
+  Gaps <- G_3_6_31
   Strict = TRUE
-  D = 3
+  D = 2
 INIT Init
 NEXT Next
 VIEW viewE
